@@ -187,7 +187,7 @@ def r_c05(rec):
     return (True, msg) if msg else (False, "argument binding agrees with CPython on the generated signatures and call shapes")
 
 
-REPLAYERS = {"C05.bounded": r_c05, "C05.D44": w_d44, "pyanalyze.signature.Signature.validate": r_validate, "C05.validate": r_validate}
+REPLAYERS = {"C05.bounded": r_c05, "pyanalyze.signature.Signature.bind_arguments": r_c05, "C05.D44": w_d44, "pyanalyze.signature.Signature.validate": r_validate, "C05.validate": r_validate}
 
 if __name__ == "__main__":
     import sys
